@@ -437,7 +437,7 @@ def gen_cases(ctx):
     rng = ctx.rng
     cases = []
     ps = [0.0, 1.0, 0.5, 0.5, 0.3, 0.8, 0.1]
-    for _ in range(ctx.pick(40000, 500000)):
+    for _ in range(ctx.pick(33000, 500000)):
         cases.append((rng.randint(0, 5), rng.random() < 0.4, rng.random() < 0.7, rng.randint(1, 8),
                       rng.choice(ps), rng.randrange(2 ** 31), rng.random() < 0.7, rng.random() < 0.8,
                       rng.choice(BOUNDARY_STARTS) if rng.random() < 0.3 else None))
@@ -913,28 +913,111 @@ def wholerun_oracle(ctx, G, cfg, seeds, n_saved, scen, start, ndays):
         ctx.violate(SIG_SEED, "two simulation numbers receive the same emission seed", dict(inp0, seeds=seeds))
 
 
-def run_wholerun(ctx, G, tmp, cfg=None):
+def wholerun_numbers_oracle(ctx, G, res, cfg, scen, start, inp0):
+    """from the OUTPUT FILES and the generator folder only: every requested simulation number 0..n-1 was simulated
+    exactly once (one summary row per program and number, one per-simulation emissions file) and on its OWN generated
+    scenario (the emissions of <program>_<i>_emissions_summary.csv are those of gen_infrastructure_emissions_<i>.p)"""
+    n = cfg["n_sims"]
+    want = list(range(n))
+    summ = res.summary("Emissions Summary")
+    pick = {i: G.pickled_scenario_fingerprint(rows, start) for i, rows in scen.items()}
+    for prog in res.programs:
+        ctx.evaluations += 1
+        col = [int(float(r["Simulation"])) for r in (summ or []) if r.get("Program Name") == prog]
+        if sorted(col) != want:
+            ctx.violate("C16:replicates:wholerun:summary-rows",
+                        "the final Emissions Summary does not hold exactly one row per requested simulation number",
+                        dict(inp0, program=prog, simulation_column=col, expected=want))
+        for i in want:
+            ctx.evaluations += 1
+            rows = res.emissions(prog, i)
+            if rows is None:
+                ctx.violate("C16:replicates:wholerun:simulation-not-run",
+                            "a requested simulation number has no per-simulation output: it was never simulated",
+                            dict(inp0, program=prog, simulation=i, simulation_column=col))
+                continue
+            got = G.output_scenario_fingerprint(rows)
+            if i in pick and got != pick[i]:
+                same_as = [j for j, fp in pick.items() if fp == got]
+                ctx.violate("C16:replicates:wholerun:not-own-scenario",
+                            "the emissions a simulation number was run on are not the scenario generated for that number",
+                            dict(inp0, program=prog, simulation=i, matches_generated_scenarios=same_as,
+                                 n_output=len(got), n_generated=len(pick[i])))
+        outs = {i: res.emissions(prog, i) for i in want}
+        fps = {i: tuple(G.output_scenario_fingerprint(r)) for i, r in outs.items() if r is not None}
+        for a in fps:
+            for b in fps:
+                if a < b and fps[a] == fps[b] and fps[a]:
+                    ctx.violate("C16:replicates:wholerun:two-numbers-same-output-scenario",
+                                "two simulation numbers of one program were simulated on the identical emissions",
+                                dict(inp0, program=prog, simulations=[a, b]))
+    ctx.nontrivial.add(("wholerun-numbers", n, inp0.get("debug"), n > 5, n % 5))
+
+
+def one_wholerun(ctx, G, tmp, tag, c, debug, processes, history=None):
+    """one whole run (or, with history=(cfg_prev, what), that run AFTER another one in the same folder); every
+    whole-run oracle is applied to it against `c`"""
     from datetime import date as _date
     from harness import wholerun as W
-    for k in range(1 if cfg is not None else ctx.pick(1, 3)):
-        c = cfg if cfg is not None else W.make_config(ctx.rng, n_sims=ctx.rng.choice([2, 3]), ndays=120, n_sites=4)
-        root = os.path.join(tmp, f"whole_{k}")
-        os.makedirs(root)
-        res = W.run_config(c, trace=False, workdir=root, repo=os.environ.get("LDAR_REPO"))
-        gdir = os.path.join(root, "inputs", "generator")
-        if res.rc != 0 or not os.path.isdir(gdir):
-            ctx.broke("whole-run generator folder read-back: the real simulator did not complete",
-                      f"rc {res.rc} cfg {c}\n{res.log[-1500:]}")
-            ctx.count("wholerun:not-completed")
-            if os.path.isdir(gdir) and os.path.exists(os.path.join(gdir, "n_sim_saved.p")):
-                pass        # the generator folder is complete: still read it back below
-            else:
-                continue
-        start = _date(*c["start"])
-        seeds, n_saved, scen = G.read_generator_folder(gdir, start)
-        wholerun_oracle(ctx, G, c, seeds, n_saved, scen, start, res.ndays)
-        ctx.count("wholerun:read-back")
-        ctx.traces += 1
+    root = os.path.join(tmp, f"whole_{tag}")
+    os.makedirs(root)
+    inp0 = {"kind": "wholerun-case", "cfg": c, "debug": debug, "processes": processes}
+    kw = dict(debug=debug, processes=processes, trace=False, workdir=root, repo=os.environ.get("LDAR_REPO"))
+    if history is not None:
+        inp0["history"] = {"cfg_prev": history[0], "what_differs": history[1]}
+        res = W.run_after(history[0], c, **kw)
+        ctx.count("history:" + history[1])
+    else:
+        res = W.run_config(c, **kw)
+    gdir = os.path.join(root, "inputs", "generator")
+    if res.rc != 0 or not os.path.isdir(gdir):
+        ctx.broke("whole-run stage: the real simulator did not complete", f"rc {res.rc} {inp0}\n{res.log[-1500:]}")
+        ctx.count("wholerun:not-completed")
+        if not (os.path.isdir(gdir) and os.path.exists(os.path.join(gdir, "n_sim_saved.p"))):
+            return
+    start = _date(*c["start"])
+    seeds, n_saved, scen = G.read_generator_folder(gdir, start)
+    before = len(ctx.violations)
+    wholerun_oracle(ctx, G, c, seeds, n_saved, scen, start, res.ndays)
+    if res.rc == 0:
+        wholerun_numbers_oracle(ctx, G, res, c, scen, start, inp0)
+    for v in ctx.violations[before:]:
+        v["input"].update({k: inp0[k] for k in ("debug", "processes") if k not in v["input"]})
+        if history is not None:
+            v["input"].setdefault("history", inp0["history"])
+    ctx.count("wholerun:" + ("debug" if debug else "pool") + f":n_sims={c['n_sims']}")
+    ctx.traces += 1
+
+
+PROGS2 = [{"name": "P_none", "methods": []}, {"name": "P_OGI", "methods": ["OGI"]}]
+
+
+def run_wholerun(ctx, G, tmp, replay=None):
+    from harness import wholerun as W
+    rng = ctx.rng
+    if replay is not None:
+        hist = replay.get("history")
+        one_wholerun(ctx, G, tmp, "r", replay["cfg"], replay.get("debug", True), replay.get("processes", 1),
+                     history=(hist["cfg_prev"], hist["what_differs"]) if hist else None)
+        return
+    small = dict(ndays=90, n_sites=3, programs=PROGS2)
+    # normal execution mode (pool), more than one batch of five with a partial last batch; DEBUG route as control
+    c = W.make_config(rng, wide=["sims-batch"], **small)
+    one_wholerun(ctx, G, tmp, "pool", c, False, 2)
+    c2 = W.make_config(rng, n_sims=13 - c["n_sims"], **small)          # 6 <-> 7
+    one_wholerun(ctx, G, tmp, "debug", c2, True, 1)
+    for k, n in enumerate(ctx.pick([], [11, 13, 5, 10])):
+        one_wholerun(ctx, G, tmp, f"pool{k}", W.make_config(rng, n_sims=n, **small), False, 2)
+    # the run the user asked for AFTER another run in the same folder (generator + output folders left behind)
+    seen = set()
+    for k in range(ctx.pick(1, 4)):
+        c = W.make_config(rng, n_sims=rng.choice([2, 3]), ndays=120, n_sites=4)
+        for _ in range(20):
+            prev, what = W.prev_variant(c, rng)
+            if what not in seen:
+                break
+        seen.add(what)
+        one_wholerun(ctx, G, tmp, f"hist{k}", c, k % 2 == 0, 2, history=(prev, what))
 
 
 # ------------------------------------------------------------------------------------------------
@@ -1202,6 +1285,48 @@ def run_shapes(ctx, G, M, tmp):
         shapes_case(ctx, G, M, tmp, f"shape{k}", ctx.rng)
 
 
+# ------------------------------------------------------------------------------------------------
+# part K: simulation numbers run by the manager (batch_simulations + both run loops)
+# ------------------------------------------------------------------------------------------------
+def run_sim_numbers(ctx, G, M):
+    ns = list(range(0, 32)) + [35, 36, 49, 50, 51, 99, 100, 101, 250, 1003]
+    real = [G.real_batches(n) for n in ns]
+    for n, r, ml in zip(ns, real, M.run([f"batches {n}" for n in ns])):
+        ctx.evaluations += 1
+        il = "[" + ",".join(map(str, r)) + "]"
+        if ml is not None and ml != il:
+            ctx.disagree("batch_simulations", {"n": n}, ml, il)
+        if sum(r) != n or any(x > 5 for x in r) or any(x != 5 for x in r[:-1]):
+            ctx.violate("C16:replicates:batches", "the batches do not add up to the requested number of simulations in fives",
+                        {"kind": "sim-numbers-case", "n": n, "debug": True, "batches": r})
+    plan = [(n, True) for n in list(range(0, 27)) + [36, 51]] + [(n, False) for n in ctx.pick([1, 6, 7, 11], [1, 2, 5, 6, 7, 8, 9, 10, 11, 12, 13, 16])]
+    got = []
+    for n, debug in plan:
+        try:
+            got.append(G.run_manager_numbers(n, debug))
+        except (Exception, SystemExit) as e:   # noqa: BLE001
+            real_crash(ctx, "SimulationManager.run_simulations", e, {"kind": "sim-numbers-case", "n": n, "debug": debug})
+            got.append(None)
+    model = M.run([f"simnums {'debug' if d else 'pool'} {n}" for n, d in plan])
+    for (n, debug), nums, ml in zip(plan, got, model):
+        if nums is None:
+            continue
+        ctx.evaluations += 1
+        il = "[" + ",".join(map(str, nums)) + "]"
+        if ml is not None and ml != il:
+            ctx.disagree("SimulationManager.run_simulations(numbers)", {"n": n, "debug": debug}, ml, il)
+        if nums != list(range(n)):
+            missing = sorted(set(range(n)) - set(nums))
+            twice = sorted({x for x in nums if nums.count(x) > 1})
+            ctx.violate("C16:replicates:simulation-numbers:" + ("debug" if debug else "pool"),
+                        "the manager does not run every requested simulation number exactly once "
+                        f"(never run: {missing}, run more than once: {twice})",
+                        {"kind": "sim-numbers-case", "n": n, "debug": debug, "numbers_run": nums})
+        ctx.count("sim-numbers:" + ("debug" if debug else "pool"))
+        ctx.nontrivial.add(("sim-numbers", debug, min(n, 14), n > 5, n % 5))
+    ctx.traces += len(plan)
+
+
 UNITDEFS = None
 SEEDINFO = None
 RATES = None
@@ -1242,6 +1367,13 @@ def setup(ctx):
                 changed.append("Generated/EmisSeed.lean")
     except (Exception, SystemExit) as e:   # noqa: BLE001
         ctx.broke("extractor: writing the generated Lean tables", f"{type(e).__name__}: {e}")
+    try:
+        sn = EX.read_sim_number()
+        if EX._write_if_changed(os.path.join(EX.LEAN_GEN, "SimNumber.lean"), EX.render_sim_number(sn)):
+            changed.append("Generated/SimNumber.lean")
+        ctx.extra["simulation_number_expression"] = {"debug": sn["debug"]["src"], "pool": sn["pool"]["src"]}
+    except (Exception, SystemExit) as e:   # noqa: BLE001
+        ctx.broke("extractor: simulation number expression (simulation_manager.py)", f"{type(e).__name__}: {e}")
     try:
         st, ch = GS.regenerate()
         changed += ch
@@ -1329,6 +1461,7 @@ def run(ctx):
         part("file shapes", lambda: run_shapes(ctx, G, M, tmp))
         part("non-SI table", lambda: check_nonsi_table(ctx, u))
         part("production rates", lambda: run_bad_production_rates(ctx, G))
+        part("simulation numbers", lambda: run_sim_numbers(ctx, G, M))
         part("whole run", lambda: run_wholerun(ctx, G, tmp))
     finally:
         shutil.rmtree(tmp, ignore_errors=True)
@@ -1440,10 +1573,16 @@ def replay(ctx, data):
             check_nonsi_table(ctx, u)
         elif kind == "bad-rate-case":
             run_bad_production_rates(ctx, G)
+        elif kind == "sim-numbers-case":
+            nums = G.run_manager_numbers(inp["n"], inp["debug"])
+            print("batches:", G.real_batches(inp["n"]), "numbers run:", nums)
+            if nums != list(range(inp["n"])):
+                ctx.violate("C16:replicates:simulation-numbers:" + ("debug" if inp["debug"] else "pool"),
+                            "not every requested simulation number is run exactly once", inp)
         elif kind == "wholerun-case":
             # the seeds of a whole run come from the unseeded global generator: the configuration is re-run,
             # the scenario may differ from the recorded one
-            run_wholerun(ctx, G, tmp, cfg=inp["cfg"])
+            run_wholerun(ctx, G, tmp, replay=inp)
         elif kind == "scenario-case":
             seeds = inp.get("seeds")
             if seeds is None:
